@@ -9,6 +9,7 @@ from .state import (SV, State, const_sv, truthy, shape, field_type, KIND, CLS, c
                     new_exception, new_instance, new_list_from_seq, alloc, elem_type, int_of, str_of, val_of,
                     GHOSTS, CLASS_DECL)
 from .execcore import Outcome, Exc, ExecCore, SeqHolder
+from .state import merge_states
 
 GLOBAL_OBJECTS = {}     # 'mod:NAME' -> static type of a module-level mutable object (lives in the pre-state heap)
 ORDER_KEYS = {}         # class qual -> ghost name giving the integer that orders instances (E-CLOCK)
@@ -212,7 +213,8 @@ class ExecExpr(ExecCore):
                     f = member.__func__
                     return [(st, SV(VNone, Ty.TFunc('%s:%s' % (f.__module__, f.__qualname__))))], []
                 if callable(member) and hasattr(member, '__qualname__'):
-                    return [(st, SV(VNone, Ty.TFunc('%s:%s' % (member.__module__, member.__qualname__), recv=base)))], []
+                    mod = getattr(member, '__module__', None) or owner.__module__
+                    return [(st, SV(VNone, Ty.TFunc('%s:%s' % (mod, member.__qualname__), recv=base)))], []
                 if front.is_const_data(member) or isinstance(member, type):
                     return [(st, self.lift_py(member, st))], []
                 raise Unsupported('class member %s.%s of type %s' % (ty.cls, attr, type(member).__name__))
@@ -330,7 +332,7 @@ class ExecExpr(ExecCore):
                     if go is not None:
                         nxt.append(go)
             cur = nxt
-        return results, raises
+        return merge_states(results), raises
 
     def ex_IfExp(self, n, st):
         normals, raises = self.ev(n.test, st)
@@ -345,7 +347,7 @@ class ExecExpr(ExecCore):
                 ns, rs = self.ev(n.orelse, f)
                 out.extend(ns)
                 raises.extend(rs)
-        return out, raises
+        return merge_states(out), raises
 
     def ex_BinOp(self, n, st):
         cur, raises = self.ev_many([n.left, n.right], st)
@@ -388,6 +390,13 @@ class ExecExpr(ExecCore):
             return [(st, new_list_from_seq(st, seq, Ty.join(ta.t, tb.t)))], []
         if isinstance(op, ast.Mod) and isinstance(ta, Ty.TStr):
             return [(st, self.percent_format(st, a, b))], []
+        if isinstance(ta, Ty.TInst) and not isinstance(a.ty, Ty.TOpt):
+            dunder = {ast.Add: '__add__', ast.Sub: '__sub__'}.get(type(op))
+            if dunder:
+                q = '%s.%s' % (ta.cls, dunder)
+                c = self.eng.contract_for(q, a)
+                if c is not None:
+                    return self.apply_contract(st, c, a, [b], {}, node)
         if isinstance(op, ast.Mult) and a.has_py and b.has_py:
             return [(st, const_sv(a.py * b.py))], []
         raise Unsupported('operator %s on %r and %r (line %d)' % (op.__class__.__name__, a.ty, b.ty, node.lineno))
@@ -471,7 +480,52 @@ class ExecExpr(ExecCore):
             else:
                 st.assume(And(Implies(x > y, r), Implies(r, x >= y)))
             return [(st, B(r))], []
-        raise Unsupported('ordering comparison between %r and %r (line %d)' % (a.ty, b.ty, node.lineno))
+        return self.compare_dynamic(st, op, a, b, node)
+
+    def compare_dynamic(self, st, op, a, b, node):
+        """operands whose static type is a union / optional: decide by run-time shape; mixed kinds raise TypeError
+        (Python 3 ordering), two ints compare as ints, two instances of an ordered class by its order key"""
+        B = lambda z: SV(VBool(z), Ty.BOOL)
+        allowed = (Ty.TUnion, Ty.TOpt, Ty.TInt, Ty.TBool, Ty.TInst, Ty.TNone, Ty.TStr)
+        if not (isinstance(a.ty, allowed) and isinstance(b.ty, allowed)):
+            raise Unsupported('ordering comparison between %r and %r (line %d)' % (a.ty, b.ty, node.lineno))
+        out, raises = [], []
+        ta, tb = a.term, b.term
+        both_int = And(Or(is_int(ta), is_bool(ta)), Or(is_int(tb), is_bool(tb)))
+        ci, rest = self.fork(st.copy(), both_int, None)
+        if ci is not None:
+            x = z3.If(is_bool(ta), z3.If(vb(ta), 1, 0), vi(ta))
+            y = z3.If(is_bool(tb), z3.If(vb(tb), 1, 0), vi(tb))
+            r = {ast.Lt: x < y, ast.LtE: x <= y, ast.Gt: x > y, ast.GtE: x >= y}[type(op)]
+            out.append((ci, B(r)))
+        if rest is not None:
+            handled = FALSE
+            for clsq, gname in sorted(ORDER_KEYS.items()):
+                cid = front.cls_id(clsq)
+                both = And(is_ref(ta), is_ref(tb), KIND(va(ta)) == K_INST, KIND(va(tb)) == K_INST,
+                           CLS(va(ta)) == cid, CLS(va(tb)) == cid)
+                co, rest2 = self.fork(rest.copy(), both, None)
+                if co is not None:
+                    key = GHOSTS[gname][0]
+                    x, y = key(ta), key(tb)
+                    r = fresh('cmp', BoolS)
+                    if isinstance(op, (ast.Lt, ast.LtE)):
+                        co.assume(And(Implies(x < y, r), Implies(r, x <= y)))
+                    else:
+                        co.assume(And(Implies(x > y, r), Implies(r, x >= y)))
+                    out.append((co, B(r)))
+                handled = Or(handled, both)
+            both_str = And(is_str(ta), is_str(tb))
+            cs, _ = self.fork(rest.copy(), both_str, None)
+            if cs is not None:
+                x, y = vs(ta), vs(tb)
+                r = {ast.Lt: x < y, ast.LtE: x <= y, ast.Gt: y < x, ast.GtE: y <= x}[type(op)]
+                out.append((cs, B(r)))
+            handled = Or(handled, both_str)
+            bad, _ = self.fork(rest, Not(handled), None)
+            if bad is not None:
+                raises.append(self.raised(bad, 'builtins:TypeError'))
+        return out, raises
 
     def py_equal(self, st, a, b, node):
         for x in (a, b):
